@@ -2,8 +2,14 @@
    get_range_content, ContentRange.compose), of the range part of
    httoop/semantic/response.py (range_conditions, prepare_ranges, prepare_range,
    multipart_byteranges) and of Multipart.encode (httoop/codecs/multipart/multipart.py).
-   io.BytesIO seek/read is list slicing.  Definitions only; proofs are in Proofs/Range.v. *)
-From Httoop Require Export Model.ElemLex Gen.RangeT.
+   io.BytesIO seek/read is list slicing.  Definitions only; proofs are in Proofs/Range.v.
+   Two findings are indexed by a variant each, chosen by a T1 probe (Gen/RangeT.v):
+     vi (C20-lax-integer-syntax)       AsFound:  a byte position is whatever int() converts
+                                       Repaired: x.isdigit() is demanded before integer(x)
+     vu (C20-range-unit-not-validated) AsFound:  the range unit is never looked at
+                                       Repaired: Range.RE_UNIT must match it (else InvalidHeader) and
+                                                 prepare_ranges leaves the response alone unless value.lower() == 'bytes' *)
+From Httoop Require Export Lib.Variant Model.ElemLex Gen.RangeT.
 Local Open Scope N_scope.
 
 (* ---------- int(bytes) in base 10 and httoop.util.integer ---------- *)
@@ -45,6 +51,16 @@ Definition pynat (b : bytes) : option N :=
   | None => None
   end.
 
+(* bytes.isdigit(): not empty and every octet in the digit class *)
+Definition isdigit_all (b : bytes) : bool := negb (isnil b) && forallb (inmask BYTES_ISDIGIT) b.
+
+(* one byte position of Range.parse *)
+Definition pos_parse (vi : variant) (b : bytes) : option N :=
+  match vi with
+  | AsFound => pynat b
+  | Repaired => if isdigit_all b then pynat b else None      (* any(x and not x.isdigit() ...) -> ValueError *)
+  end.
+
 (* ---------- Range.parse ---------- *)
 
 Definition rspec := (option N * option N)%type.
@@ -52,14 +68,14 @@ Definition rspec := (option N * option N)%type.
 Definition zero_or_none (x : option N) : bool := match x with None => true | Some n => n =? 0 end.
 
 (* one byte-range-spec; None = InvalidHeader *)
-Definition parse_one (br : bytes) : option rspec :=
+Definition parse_one (vi : variant) (br : bytes) : option rspec :=
   let '(a, found, b) := partition3 DASH br in
   let start := strip a in
   let stop := strip b in
   if (isnil start && isnil stop) || negb found then None        (* no range start/stop *)
   else
-    let s := if isnil start then Some None else option_map Some (pynat start) in
-    let e := if isnil stop then Some None else option_map Some (pynat stop) in
+    let s := if isnil start then Some None else option_map Some (pos_parse vi start) in
+    let e := if isnil stop then Some None else option_map Some (pos_parse vi stop) in
     match s, e with
     | Some s, Some e =>
         if match s, e with Some x, Some y => y <=? x | _, _ => false end then None   (* start must be smaller than end *)
@@ -127,16 +143,27 @@ Definition dos_ok (rs : list rspec) : bool :=
    no_dup_range [] (map (fun r => (or0 (fst r), match snd r with Some y => y | None => m end)) rs)) &&
   negb (stddev_gt2 rs).
 
-(* Headers.element('Range'): (unit, ranges) or InvalidHeader; [accept] is the DoS filter *)
-Definition range_specs (v : bytes) : bytes * option (list rspec) :=
-  let '(u, _, rest) := partition3 EQC v in
-  (u, all_some (map (fun p => parse_one (strip p)) (qsplit COMMA rest))).
+(* Range.RE_UNIT.match(unit): one or more octets of the class, nothing else *)
+Definition unit_ok (vu : variant) (u : bytes) : bool :=
+  match vu with
+  | AsFound => true
+  | Repaired => negb (isnil u) && forallb (inmask RANGE_UNIT_CHARS) u
+  end.
 
-Definition range_parse_with (accept : list rspec -> bool) (v : bytes) : option (bytes * list rspec) :=
-  match range_specs v with
+(* Headers.element('Range'): (unit, ranges) or InvalidHeader; [accept] is the DoS filter *)
+Definition range_specs_v (vi vu : variant) (v : bytes) : bytes * option (list rspec) :=
+  let '(u, _, rest) := partition3 EQC v in
+  (u, if unit_ok vu u then all_some (map (fun p => parse_one vi (strip p)) (qsplit COMMA rest)) else None).
+
+Definition range_parse_v (vi vu : variant) (accept : list rspec -> bool) (v : bytes) : option (bytes * list rspec) :=
+  match range_specs_v vi vu v with
   | (u, Some l) => let rs := sort_r (dedupe [] l) in if accept rs then Some (u, rs) else None
   | (_, None) => None
   end.
+
+(* the working tree, as probed *)
+Definition range_specs := range_specs_v RANGE_INT_VARIANT RANGE_UNIT_VARIANT.
+Definition range_parse_with := range_parse_v RANGE_INT_VARIANT RANGE_UNIT_VARIANT.
 Definition range_parse := range_parse_with dos_ok.
 
 (* ---------- Range.positions + get_range_content on a BytesIO ---------- *)
@@ -205,17 +232,26 @@ Definition prepare_range (rs : list rspec) (d ctype bd : bytes) : outcome :=
       Partial None (Some (multipart_ctype bd)) (len b) b
   end.
 
-Definition prepare_ranges_with (accept : list rspec -> bool) (c : pre) (range : option bytes) (d ctype bd : bytes) : outcome :=
+(* range_.value.lower() != 'bytes' -> return False (RFC 7233 3.1: a unit that is not understood is ignored) *)
+Definition BYTES_UNIT : bytes := X "6279746573".
+Definition unit_served (vu : variant) (u : bytes) : bool :=
+  match vu with
+  | AsFound => true
+  | Repaired => bytes_eqb (lower u) BYTES_UNIT
+  end.
+
+Definition prepare_ranges_v (vi vu : variant) (accept : list rspec -> bool) (c : pre) (range : option bytes) (d ctype bd : bytes) : outcome :=
   match range with
   | Some v =>
       if range_conditions c true d then
-        match range_parse_with accept v with
-        | Some (_, rs) => prepare_range rs d ctype bd
+        match range_parse_v vi vu accept v with
+        | Some (u, rs) => if unit_served vu u then prepare_range rs d ctype bd else Unchanged
         | None => Unsatisfiable (content_range_unsat (len d))
         end
       else Unchanged
   | None => Unchanged
   end.
+Definition prepare_ranges_with := prepare_ranges_v RANGE_INT_VARIANT RANGE_UNIT_VARIANT.
 Definition prepare_ranges := prepare_ranges_with dos_ok.
 
 Definition status_of (o : outcome) (before : N) : N :=
